@@ -254,3 +254,34 @@ fn total_read_buf() {
         assert!(n <= input.len());
     }
 }
+
+// ---- delete-set range codec (yrs/src/id_set.rs: Encode/Decode for Range<u32>), v1 wire format
+// @harness name=total_range_v1 kind=complete tiers=quick,thorough domain="all byte strings (reads <= 22 bytes; lengths 0..=23)" bound="unwind 24, unwinding assertions on" target="<Range<u32> as Decode>::decode (DecoderV1::read_ds_clock/read_ds_len)"
+#[kani::proof]
+#[kani::unwind(24)]
+fn total_range_v1() {
+    use crate::updates::decoder::Decode;
+    let buf: [u8; 23] = kani::any();
+    let input = any_prefix(&buf);
+    if let Ok(r) = <std::ops::Range<u32> as Decode>::decode_v1(input) {
+        assert!(r.start <= r.end);
+    }
+}
+
+// (slow: EncoderV1::new pre-allocates 1 KiB; thorough tier only)
+// @harness name=rt_range_v1 kind=complete tiers=thorough domain="all ranges start <= end over u32" bound="unwind 12, unwinding assertions on" timeout=1500 target="<Range<u32> as Encode>::encode / Decode::decode (v1)"
+#[kani::proof]
+#[kani::unwind(12)]
+fn rt_range_v1() {
+    use crate::updates::decoder::Decode;
+    use crate::updates::encoder::{Encode, Encoder, EncoderV1};
+    let start: u32 = kani::any();
+    let end: u32 = kani::any();
+    kani::assume(start <= end);
+    let r = start..end;
+    let mut e = EncoderV1::new();
+    r.encode(&mut e);
+    let bytes = e.to_vec();
+    let back = <std::ops::Range<u32> as Decode>::decode_v1(&bytes).unwrap();
+    assert!(back.start == start && back.end == end);
+}
